@@ -32,11 +32,17 @@ def check_all_notes(ex, repo, cache):
                 return {"monitor": "notes.invariant", "class": "object_at_two_tree_paths",
                         "detail": {"object": oid, "paths": [seen[oid], path]}}
             seen[oid] = path
+    real = None
+    if len(notes.blob_of) > 2000:
+        # a large pre-existing notes ref: validate the notes of the commits this history made
+        real = set(w.raw_git(repo, "rev-list", "--all").out.split())
     for commit in notes.commits():
+        if real is not None and commit not in real:
+            continue
         blob = notes.blob_of[commit]
         if cache.get(commit) == blob:
             continue
-        if w.raw_git(repo, "cat-file", "-t", commit).out.strip() != "commit":
+        if real is None and w.raw_git(repo, "cat-file", "-t", commit).out.strip() != "commit":
             continue
         p = notes.parsed(commit)
         if isinstance(p, noteparse.NoteError):
@@ -77,9 +83,9 @@ class C05(C02):
             "paths of its commit, 1-based lines within the blob's line count, sorted non-overlapping ranges, every hash has a "
             "prompt record, base_commit_sha = annotated commit, no human entry. distinct = digest of family x op sequence x "
             "names; non-trivial = a note with attestations was validated")
-    assumptions = ["notes-ref size classes beyond one fan-out level are probed by the deep-fanout scenario only",
+    assumptions = ["the two-level fan-out size class (a pre-built ref of 70 001 synthetic notes) is drawn in 1 of 40 quick runs / 1 of 25 thorough runs; there the Ledger is checked through blame as well",
                    "a tracked file literally named '---' is finding divider_path"]
-    expected_probes = ["notes_checked", "ai_lines_observed", "hazard.names"]
+    expected_probes = ["notes_checked", "ai_lines_observed", "hazard.names", "size_class.two_level"]
 
     def draw_hazards(self, rng, tier):
         hz = {}
@@ -89,8 +95,38 @@ class C05(C02):
             hz["indent"] = True
         return hz
 
+    def header(self, rng, tier, index):
+        h = super().header(rng, tier, index)
+        # notes-ref size class: a pre-existing ref of ~70 k notes makes git lay the tree out two levels deep
+        if index % (40 if tier == "quick" else 25) == 7:
+            h["cfg"]["size_class"] = "two_level"
+            h["cfg"]["families"] = [rng.choice(["rebase", "rebase_onto", "cherry_pick", "commits", "amend", "fastpath"])]
+            h["cfg"]["hazards"] = {}
+        return h
+
+    def ops(self, rng, ex, cfg):
+        from . import c15  # registers the fastpath family
+        if cfg.get("size_class") == "two_level":
+            ex.probe("size_class.two_level")
+            yield {"op": "bulk_notes", "n": 70001, "tag": 1, "dt": 1000}
+        yield from super().ops(rng, ex, cfg)
+
     def before_op(self, ex, i, op, cfg):
         pass
+
+    def final(self, ex, cfg):
+        # in the large-ref class every AI line must also still be found by blame (notes readable through
+        # both the single and the batched readers)
+        if cfg.get("size_class") == "two_level":
+            from .c01 import check_blame
+            from ..engine import in_progress
+            repo = ex.repos["r0"]
+            if not in_progress(ex.w, repo):
+                v = check_blame(ex, repo, ex.sessions, one_sided=False)
+                if v:
+                    v["class"] = "two_level_" + v["class"]
+                    return v
+        return None
 
     def monitor(self, ex, i, op, res, cfg):
         if cfg.get("hazards", {}).get("names"):
@@ -100,8 +136,6 @@ class C05(C02):
         repo = ex.repo(op)
         return check_all_notes(ex, repo, ex.gen_state.setdefault("note_cache", {}))
 
-    def final(self, ex, cfg):
-        return None
 
 
 PROP = C05()
